@@ -567,6 +567,18 @@ func runDecBounds(c *core.Ctx) {
 					c.OK(nil, fname(c, fn), construct, pos, "index is a loop counter running while < "+b)
 					return
 				}
+				// a fixed-size array indexed by a counter that runs while < some other length:
+				// in bounds if that length is known to be at most the array's size here
+				if arr, isArr := t.(*types.Array); isArr {
+					if b, ok := loopIndexBound(idx); ok && strings.HasPrefix(b, "len(") {
+						set, n, okr := an.ConstFrame(b).ReachSet(fn, in.Block(), nil, nil)
+						c.CountPaths(n)
+						if okr && set.Subset(an.Range(0, arr.Len())) {
+							c.OK(nil, fname(c, fn), construct, pos, fmt.Sprintf("index is a loop counter running while < %s ∈ %s, the array has %d elements", b, set, arr.Len()))
+							return
+						}
+					}
+				}
 				// i+c with loop bound len(x)-c
 				if bin, ok := an.Unwrap(idx).(*ssa.BinOp); ok && bin.Op == token.ADD {
 					if k, isK := an.ConstInt(bin.Y); isK && k >= 0 {
